@@ -62,10 +62,15 @@ def may_raise(st: ast.AST) -> bool:
     if isinstance(st, ast.Assign):
         if all(isinstance(t, ast.Name) for t in st.targets) and isinstance(st.value, (ast.Constant, ast.Name)):
             return False
+        # a, b = x, y  (names / constants only): builds and unpacks a tuple of the right length
+        if len(st.targets) == 1 and isinstance(st.targets[0], ast.Tuple) and isinstance(st.value, ast.Tuple) \
+                and len(st.targets[0].elts) == len(st.value.elts) and all(isinstance(t, ast.Name) for t in st.targets[0].elts) \
+                and all(isinstance(v, (ast.Constant, ast.Name)) for v in st.value.elts):
+            return False
         return True
     if isinstance(st, ast.Return):
         return not (st.value is None or isinstance(st.value, (ast.Constant, ast.Name)))
-    if isinstance(st, ast.Expr) and isinstance(st.value, ast.Constant):
+    if isinstance(st, ast.Expr) and isinstance(st.value, (ast.Constant, ast.Name)):
         return False
     return True
 
@@ -490,3 +495,97 @@ def enclosing_loops(fn: ast.AST) -> Dict[int, List[ast.AST]]:
                 rec(st.finalbody, stack)
     rec(getattr(fn, "body", []), [])
     return out
+
+
+
+# ------------------------------------------------------------------------------------------ ExitStack desugaring
+def desugar_exitstack(fn: ast.FunctionDef) -> ast.FunctionDef:
+    """Copy of `fn` in which `with ExitStack() as S:` is spelled with ordinary statements:
+
+        S.enter_context(CM)            ->  with CM:            <rest of the block>
+        x = S.enter_context(CM)        ->  with CM as x:       <rest of the block>
+        S.callback(f.close) / S.push(f)->  try: <rest> finally: f.close()
+        (the same under an `if`)       ->  flag = False; if …: …; flag = True;  try: <rest> finally: if flag: f.close()
+
+    Registration itself is taken not to fail.  Cleanups run in reverse order of registration, which is what the nesting gives."""
+    import copy
+    new = copy.deepcopy(fn)
+    counter = [0]
+
+    def registration(st: ast.stmt, S: str):
+        """('enter', cm, target) | ('close', expr) | None"""
+        call = None
+        target = None
+        if isinstance(st, ast.Expr) and isinstance(st.value, ast.Call):
+            call = st.value
+        elif isinstance(st, ast.Assign) and len(st.targets) == 1 and isinstance(st.value, ast.Call):
+            call, target = st.value, st.targets[0]
+        if call is None or not (isinstance(call.func, ast.Attribute) and isinstance(call.func.value, ast.Name) and call.func.value.id == S):
+            return None
+        m = call.func.attr
+        if m == "enter_context" and len(call.args) == 1:
+            return ("enter", call.args[0], target)
+        if m == "callback" and call.args and isinstance(call.args[0], ast.Attribute) and call.args[0].attr == "close" and len(call.args) == 1:
+            return ("close", call.args[0].value)
+        if m == "push" and len(call.args) == 1:
+            return ("close", call.args[0])
+        return None
+
+    def close_stmt(obj: ast.expr) -> ast.stmt:
+        return ast.Expr(value=ast.Call(func=ast.Attribute(value=copy.deepcopy(obj), attr="close", ctx=ast.Load()), args=[], keywords=[]))
+
+    def wrap(stmts, S):
+        out = []
+        for i, st in enumerate(stmts):
+            r = registration(st, S)
+            rest = stmts[i + 1:]
+            if r is not None and r[0] == "enter":
+                item = ast.withitem(context_expr=r[1], optional_vars=r[2])
+                out.append(ast.copy_location(ast.With(items=[item], body=wrap(rest, S) or [ast.Pass()]), st))
+                return out
+            if r is not None and r[0] == "close":
+                out.append(ast.copy_location(ast.Try(body=wrap(rest, S) or [ast.Pass()], handlers=[], orelse=[], finalbody=[close_stmt(r[1])]), st))
+                return out
+            if isinstance(st, ast.If):
+                regs = [(blk, j, registration(x, S)) for blk in (st.body, st.orelse) for j, x in enumerate(blk) if registration(x, S) is not None]
+                regs = [x for x in regs if x[2][0] == "close"]
+                if regs:
+                    finals = []
+                    for blk, j, r2 in regs:
+                        counter[0] += 1
+                        flag = f"__registered{counter[0]}"
+                        out.append(ast.copy_location(ast.Assign(targets=[ast.Name(id=flag, ctx=ast.Store())], value=ast.Constant(value=False)), st))
+                        blk[j] = ast.copy_location(ast.Assign(targets=[ast.Name(id=flag, ctx=ast.Store())], value=ast.Constant(value=True)), blk[j])
+                        finals.append(ast.If(test=ast.Name(id=flag, ctx=ast.Load()), body=[close_stmt(r2[1])], orelse=[]))
+                    out.append(st)
+                    out.append(ast.copy_location(ast.Try(body=wrap(rest, S) or [ast.Pass()], handlers=[], orelse=[], finalbody=list(reversed(finals))), st))
+                    return out
+            out.append(st)
+        return out
+
+    def rec(stmts):
+        res = []
+        for st in stmts:
+            for fld in ("body", "orelse", "finalbody"):
+                if hasattr(st, fld) and isinstance(getattr(st, fld), list) and not isinstance(st, (ast.FunctionDef, ast.ClassDef)):
+                    setattr(st, fld, rec(getattr(st, fld)))
+            if isinstance(st, ast.Try):
+                for h in st.handlers:
+                    h.body = rec(h.body)
+            if isinstance(st, ast.With) and len(st.items) == 1 and isinstance(st.items[0].context_expr, ast.Call) \
+                    and norm_name(st.items[0].context_expr.func) == "ExitStack" and isinstance(st.items[0].optional_vars, ast.Name):
+                res.extend(wrap(st.body, st.items[0].optional_vars.id))
+            else:
+                res.append(st)
+        return res
+
+    new.body = rec(new.body)
+    ast.fix_missing_locations(new)
+    return new
+
+
+def norm_name(e: ast.AST) -> str:
+    try:
+        return ast.unparse(e).split(".")[-1]
+    except Exception:
+        return ""
